@@ -3,8 +3,8 @@ package h
 import "strings"
 
 // Starvation schedules (verifrt.Options.Starve): which deviation-free scenarios are explored,
-// besides the FIFO base schedule, once per goroutine number 1..StarveN with that goroutine
-// starved. The thorough tier does it for every deviation-free engine scenario; the quick tier
+// besides the FIFO base schedule, once per goroutine number 1..StarveN (thorough: 1..64) with that
+// goroutine starved (victims beyond the number of goroutines an execution creates are skipped). The thorough tier does it for every deviation-free engine scenario; the quick tier
 // for the families below (chosen so that a quick check stays under about a minute).
 // C15's engine clause compares two runs line by line and needs both to follow the same
 // schedule, so it is excluded; the sequential properties have no schedule dimension.
@@ -39,7 +39,7 @@ func starveFor(prop, tier string, sc *Scn) int {
 		return 0
 	}
 	if tier == "thorough" {
-		return StarveN
+		return 64
 	}
 	for _, p := range starveQuick[prop] {
 		switch {
